@@ -42,8 +42,32 @@ KNOWN_SHIFT = ("minimum-cost repair missed: shift neighbour dropped when the par
 KNOWN_NONCONFLUENT = ("reported repair sequence does not repair on a conflict-resolved table: the search continues from a stack "
                       "reduced under the real lookahead, the replay starts from the unreduced stack")
 
-BUDGET_MS = 20000
-CASE_TIMEOUT_MS = 90000
+BUDGET_MS = 3000          # recovery budget handed to the implementation (hook); parses that use >= 80% are not compared
+CASE_TIMEOUT_MS = 60000   # watchdog per case line
+ONE_TIMEOUT_MS = 9000
+
+
+def run_impl(exe, cases):
+    """the `repair` harness on every case; a case line lost to the watchdog / memory limit is redone input by input"""
+    lines = [repair.case_line(g, costs, inputs) for _, g, _, costs, inputs in cases]
+    env = {"GRMTOOLS_VERIF_RECOVERY_BUDGET_MS": str(BUDGET_MS), "GVH_CASE_TIMEOUT_MS": str(CASE_TIMEOUT_MS)}
+    impl = core.run_lines([exe], lines, env=env)
+    for i, out in enumerate(impl):
+        if out.startswith("G "):
+            continue
+        _, g, _, costs, inputs = cases[i]
+        sub = [repair.case_line(g, costs, [])] + [repair.case_line(g, costs, [inp]) for inp in inputs]
+        env1 = {"GRMTOOLS_VERIF_RECOVERY_BUDGET_MS": str(BUDGET_MS), "GVH_CASE_TIMEOUT_MS": str(ONE_TIMEOUT_MS)}
+        outs = core.run_lines([exe], sub, env=env1, shards=min(core.NPROC, len(sub)))
+        if not outs[0].startswith("G "):
+            continue
+        tails = []
+        for o in outs[1:]:
+            if o.startswith("G "):
+                k = o.find(" # I")
+                tails.append(o[k:] if k >= 0 else "")
+        impl[i] = outs[0] + "".join(tails)
+    return impl
 
 
 class ErrRes:
@@ -159,11 +183,9 @@ def run(ctx):
     exe = core.build_harness("repair")
     mexe = core.build_model("c06")
     cases = c06gen.gen_cases(ctx, ctx.n(150, 1500), ctx.n(6, 8))
-    lines = [repair.case_line(g, costs, inputs) for _, g, _, costs, inputs in cases]
-    env = {"GRMTOOLS_VERIF_RECOVERY_BUDGET_MS": str(BUDGET_MS), "GVH_CASE_TIMEOUT_MS": str(CASE_TIMEOUT_MS)}
-    impl = core.run_lines([exe], lines, env=env)
+    impl = run_impl(exe, cases)
     todo = [(i, l) for i, l in enumerate(impl) if l.startswith("G ")]
-    opt = " # OPT tstep=%s maxedits=%d mfuel=%d" % (ctx.n("0.12", "0.5"), ctx.n(6, 7), ctx.n(40000, 150000))
+    opt = " # OPT ncap=%d maxedits=%d mfuel=%d" % (ctx.n(150000, 600000), ctx.n(6, 7), ctx.n(40000, 150000))
     mout = core.run_lines([mexe], [repair.shrink_for_model(l) + opt for _, l in todo], timeout=2400)
     model = {i: m for (i, _), m in zip(todo, mout)}
     compared = 0
@@ -233,7 +255,10 @@ def run(ctx):
                               "model": [x[0] for x in m.im], "checker": pcosts[:len(m.im)]})
                     ctx.violation(d, no_input=True)
                     ok = False
-                if late or m.rf is None or m.rf[0] == "cap" or len(m.im) < len(seqs):
+                if late:
+                    ctx.oblige(ok)
+                    continue
+                if m.rf is None or m.rf[0] == "cap" or len(m.im) < len(seqs):
                     ctx.count("reference_not_computed(cap)")
                     ctx.oblige(ok)
                     continue
